@@ -13,7 +13,7 @@ def alias_events():
         import re
         txt = open(os.path.join(vlib.VERIF, "spec/api/Aliasing.tla")).read()
         txt = re.sub(r"\(\*.*?\*\)", "", txt, flags=re.S)
-        _ALIAS_EVENTS = set(re.findall(r'"([A-Za-z0-9_]+)"', txt))
+        _ALIAS_EVENTS = {n: int(k) for n, k in re.findall(r'<<\s*"([A-Za-z0-9_]+)"\s*,\s*(\d+)\s*>>', txt)}
     return _ALIAS_EVENTS
 
 _STATIC_EVENTS = None
@@ -170,7 +170,8 @@ class Check:
                 if sub:
                     self.replay(sub, variant, name + " [static context]", soft=soft, soft_trace=soft_trace, env={"VH_STATIC_CTX": "1"})
                 # ... and the actions of spec/api/Aliasing.tla with the output buffer aliased to an input buffer (same specified result)
-                sub = [dict(r, **{"in": dict(r.get("in", {}), alias=1)}) for r in recs if r["e"] in alias_events() and "alias" not in r.get("in", {})]
+                ae = alias_events()
+                sub = [dict(r, **{"in": dict(r.get("in", {}), alias=m)}) for r in recs if r["e"] in ae and "alias" not in r.get("in", {}) for m in range(1, ae[r["e"]] + 1)]
                 if sub and not self.violations:
                     self.replay(sub, variant, name + " [output aliased to an input]", soft=soft, soft_trace=soft_trace, env={"VH_NO_EXTRA_PASSES": "1"})
 
